@@ -338,7 +338,8 @@ TOut ==
                      ELSE ExplTcs({i \in DOMAIN tcs : ~Accepts(lang, TheWord(tcs[i]))})
          m == MemoOf(c)
      \* a pattern the engine rejects denotes no language: soundness and the exactness property of these settings fail
-     IN /\ Judge(~o.engine \/ o.compiles, {"C07"} \cup (IF EngineBound(c) THEN {"C01"} \cup ExactProps(c) ELSE {}),
+     IN /\ Judge(~o.engine \/ o.compiles, {"C07"} \cup (IF EngineBound(c) THEN {"C01"} \cup ExactProps(c) ELSE {})
+                                                   \cup (IF EngineBound(c) /\ (c.verbose \/ c.capture \/ c.escape) THEN {"C06"} ELSE {}),
                  "invalid", IF Has(o, "msg") THEN o.msg ELSE "")
         /\ Judge(~parsed \/ hirok, {"TOOL"}, "hir-outside-fragment", "")
         /\ Judge(okPrint, {"C16", "C06"}, "print", "")
@@ -492,7 +493,9 @@ TCli ==
           [] x.kind = "ok" ->
                /\ JudgeH(e.believed /\ ToCfg(e.cfg) = x.cfg /\ e.tcs = x.tcs, {"TOOL"}, "cli-belief", e.h, 0, "")
                /\ JudgeH(e.exit = 0 /\ ~e.panicked, {"C12"}, "cli-exit", e.h, 0, "")
-               /\ JudgeH(e.libok /\ e.stdout = e.lib \o <<10>>, {"C12"}, "cli-output", e.h, 0, "")
+               \* a CLI result that differs from the library's for the settings the flags denote also breaks the
+               \* properties that are about those settings (e.g. an anchor the flags disabled is printed: C08)
+               /\ JudgeH(e.libok /\ e.stdout = e.lib \o <<10>>, {"C12"} \cup SettingProps(x.cfg), "cli-output", e.h, 0, "")
   /\ l' = l + 1 /\ cnt' = Bump({"cli"})
   /\ UNCHANGED <<pc, G, tcs, run, memo>>
 
